@@ -156,7 +156,7 @@ func c19clExec(res *verifrt.Result, c c19clCase) {
 		if len(parts) == 2 {
 			// the attempt starts the submitter; once the attempt is over the submitter must get through
 			var p chan error
-			for i := 0; p == nil && i < 2000000; i++ {
+			for dl := time.Now().Add(15 * time.Second); p == nil && time.Now().Before(dl); {
 				mu.Lock()
 				p, pending = pending, nil
 				mu.Unlock()
